@@ -1,0 +1,74 @@
+//go:build verif
+
+package rpc
+
+import "reflect"
+
+// Verification hooks (build tag "verif"): trace and yield points for the external
+// verification harness, and read-only accessors. They add no behaviour of their own.
+
+// VerifTrace, when set, is called at trace points (possibly inside critical sections: it must not block).
+var VerifTrace func(point, key string)
+
+// VerifYield, when set, is called at yield points (never inside a critical section: it may park the goroutine).
+var VerifYield func(point, key string)
+
+func verifTrace(point, key string) {
+	if h := VerifTrace; h != nil {
+		h(point, key)
+	}
+}
+
+func verifYield(point, key string) {
+	if h := VerifYield; h != nil {
+		h(point, key)
+	}
+}
+
+// VerifClosureCount returns the number of currently registered closures.
+func (r Registry[R, T]) VerifClosureCount() int {
+	r.local.wrapper.closuresLock.Lock()
+	defer r.local.wrapper.closuresLock.Unlock()
+
+	return len(r.local.wrapper.closures)
+}
+
+// VerifFindMethod runs the local function lookup on an arbitrary root object and reports
+// whether it resolved, failed with an error, or panicked.
+func VerifFindMethod(root interface{}, functionCallPath string) (fn reflect.Value, err error, panicked interface{}) {
+	defer func() {
+		if e := recover(); e != nil {
+			panicked = e
+		}
+	}()
+
+	fn, err = findMethodByFunctionCallPathRecursively(root, functionCallPath)
+
+	return
+}
+
+// VerifConvertValue runs convertValue and reports a panic instead of propagating it.
+func VerifConvertValue(srcVal reflect.Value, dstType reflect.Type) (v reflect.Value, err error, panicked interface{}) {
+	defer func() {
+		if e := recover(); e != nil {
+			panicked = e
+		}
+	}()
+
+	v, err = convertValue(srcVal, dstType)
+
+	return
+}
+
+// VerifCreateClosure exposes the closure wrapper.
+func VerifCreateClosure(fn interface{}) (func(args ...interface{}) (interface{}, error), error) {
+	return createClosure(fn)
+}
+
+func verifErrString(err error) string {
+	if err == nil {
+		return "<nil>"
+	}
+
+	return err.Error()
+}
